@@ -74,6 +74,16 @@ func (fr *Frame) exec(in ssa.Instruction) {
 			ex.oos("%s: store through non-local pointer at %s", shortName(fr.fn.String()), fr.pos(in))
 			return
 		}
+		if tp, isP := val.(PtrV); isP && len(tp.Path) == 0 && !p.Cell.Dyn && !tp.Cell.Param {
+			// pointer to a local cell stored into a field: remember the alias
+			var keep []ptrAlias
+			for _, al := range fr.ex.ptrAliases {
+				if !(al.cell == p.Cell && samePath(al.path, p.Path)) {
+					keep = append(keep, al)
+				}
+			}
+			fr.ex.ptrAliases = append(keep, ptrAlias{p.Cell, append([]PathEl{}, p.Path...), tp})
+		}
 		if mv, isM := val.(MapV); isM && len(p.Path) == 0 {
 			// a locally made map assigned to a variable cell: the cell aliases the map
 			if fr.ex.mapCells == nil {
@@ -177,7 +187,7 @@ func (fr *Frame) exec(in ssa.Instruction) {
 		v := fr.get(x.X)
 		switch p := v.(type) {
 		case TV:
-			fr.set(x, TV{p.T, x.Type()})
+			fr.set(x, TV{convertRepr(p.T, x.X.Type(), x.Type()), x.Type()})
 		default:
 			fr.set(x, v)
 		}
@@ -311,6 +321,12 @@ func (fr *Frame) execUnOp(x *ssa.UnOp) {
 			if mv, ok := fr.ex.mapCells[p.Cell]; ok && len(p.Path) == 0 {
 				fr.set(x, mv)
 				return
+			}
+			if _, isPtr := x.Type().Underlying().(*types.Pointer); isPtr {
+				if tp, ok := fr.aliasAt(p.Cell, p.Path); ok {
+					fr.set(x, tp)
+					return
+				}
 			}
 			t := fr.load(p)
 			fr.set(x, TV{Typed(t, x.Type()), x.Type()})
@@ -619,6 +635,8 @@ func (fr *Frame) execConvert(x *ssa.Convert) {
 		fr.set(x, TV{wrapTo(tv.T, to), to})
 	case SortOf(from) == SortOf(to):
 		fr.set(x, TV{tv.T, to}) // string <-> []byte and named conversions: same representation (copy semantics ignored: values are immutable terms)
+	case types.IdenticalIgnoreTags(from.Underlying(), to.Underlying()):
+		fr.set(x, TV{convertRepr(tv.T, from, to), to})
 	default:
 		fr.opaque(x, fmt.Sprintf("convert %s -> %s", from, to))
 	}
@@ -640,7 +658,7 @@ func (fr *Frame) execMakeSlice(x *ssa.MakeSlice) {
 		fr.opaque(x, "make of unsupported elem type")
 		return
 	}
-	fr.safety(x, "makelen", And(Le(IntC(0), ln.T), Le(ln.T, IntB(maxLen))))
+	fr.safety(x, "makelen", And(Le(IntC(0), ln.T), Le(ln.T, IntB(Pow2(42)))))
 	c := fr.cells[x]
 	if c == nil {
 		c = fr.ex.newCell(elem, "make")
@@ -800,3 +818,31 @@ func (fr *Frame) runDefers(x *ssa.RunDefers) {
 }
 
 var _ = big.NewInt
+
+// convertRepr converts a term between the sorts of two Go types with identical underlying
+// types (distinct named struct types are distinct datatypes).
+func convertRepr(x *Term, from, to types.Type) (r *Term) {
+	defer func() {
+		if recover() != nil {
+			r = x
+		}
+	}()
+	ts := SortOf(to)
+	if x.Sort == ts {
+		return x
+	}
+	switch fu := from.Underlying().(type) {
+	case *types.Struct:
+		tu, ok := to.Underlying().(*types.Struct)
+		if !ok || tu.NumFields() != fu.NumFields() {
+			return x
+		}
+		fc, tc := structCtor(from), structCtor(to)
+		args := make([]*Term, fu.NumFields())
+		for i := range args {
+			args[i] = convertRepr(SelField(fc, i, x), fu.Field(i).Type(), tu.Field(i).Type())
+		}
+		return MkCtor(tc, args...)
+	}
+	return x
+}
